@@ -14,6 +14,7 @@ RULE = ('(i) BFS over real HyperLogLogWCache instances scaled down by assignment
         'p=4,m=16,warm-up=8): event = add(v), v from warm-up+3 distinct strings, all insertion sequences to depth warm-up+4; state = '
         '(warm-up set, flag, registers) + reference set; (ii) the unmodified class on declared long insertion streams crossing 2^18 '
         '(thorough: up to 2^21 distinct) with len() checked after every insertion around the switch and at checkpoints; (iii) the sketches as the pipeline feeds them (compute_cardinalities over 5 batches in 3 orders, histogram bounds 1..30000). '
+        '(iv) two scaled sketches alive in one process (p=2/warm-up 2, p=3/warm-up 3; thorough also p=4/warm-up 4): BFS over all interleavings of insertions into either, both able to leave the warm-up; each obeys (i), an insertion into one never changes the other, and a sketch\'s state is a function of its own insertion history. '
         'non-trivial = distinct states with at least two distinct values inserted')
 ASSUMPTIONS = ['the estimate clause (2%) is judged only on the real-size streams, not at m=8/16',
                'scaled instances differ from production ones only in the four attributes p, m, warmup_size, width']
